@@ -24,37 +24,60 @@ theorem skeleton_agrees : skeletonOK = true := by decide +kernel
 
 /-! ## never drops a responsive connection -/
 
-/-- The only thing that makes the Leader call `disconnect()` from the monitor is a timer expiry
-    at which a `Ping` that was handed to the connection in use exactly one interval earlier is
-    still unanswered. -/
+/-- The only thing that makes the Leader call `disconnect()` from the monitor is a step of the
+    clock (a tick, or a stall of any length after which the timer runs late) that runs the timer
+    armed when a `Ping` was handed to the connection in use — `p.sent` is the time that Ping was
+    really sent, the timer's deadline is `p.sent + T`, it is handled at `s'.now ≥ p.sent + T` —
+    and that Ping is still unanswered.  With exact timers (`o = .tick`) that is exactly one
+    interval after the Ping. -/
 theorem drop_only_if_unanswered {T : Nat} (hT : 1 ≤ T) {s s' : St} {o : Op}
     (hr : Reach (Cfg.real T) s) (h : step (Cfg.real T) s o = (s', none)) (hd : s'.drops ≠ s.drops) :
-    o = .tick ∧ ∃ c p, s.conn = some c ∧ p ∈ s.pings ∧ p ∈ s'.pings ∧ p.wire = some c ∧
-      p.sent + T = s'.now ∧ s.timer = some (s.now + 1) ∧ s'.drops = s.drops ++ [(c, s'.now)] := by
-  by_cases ho : o = .tick
-  · subst ho
-    rcases tick_drop (reach_inv hT hr) h with h' | h'
+    ∃ n c p, o.clock = some n ∧ s'.now = s.now + n ∧ s.conn = some c ∧ p ∈ s.pings ∧ p ∈ s'.pings ∧
+      p.wire = some c ∧ s.timer = some (p.sent + T) ∧ s.now < p.sent + T ∧ p.sent + T ≤ s'.now ∧
+      (o = .tick → p.sent + T = s'.now) ∧ s'.drops = s.drops ++ [(c, s'.now)] := by
+  have hi := reach_inv hT hr
+  have key : ∀ n, step (Cfg.real T) s (.stall n) = (s', none) → ∃ c p, s'.now = s.now + n ∧ s.conn = some c ∧
+      p ∈ s.pings ∧ p ∈ s'.pings ∧ p.wire = some c ∧ s.timer = some (p.sent + T) ∧ s.now < p.sent + T ∧
+      p.sent + T ≤ s'.now ∧ s'.drops = s.drops ++ [(c, s'.now)] := by
+    intro n hn
+    rcases stall_drop hi hn with h' | ⟨c, p, hc, hp, hp', hw, htm, hle, hnow, hdr⟩
     · exact absurd h' hd
-    · exact ⟨rfl, h'⟩
-  · have := step_drops (T := T) (s := s) ho
+    · exact ⟨c, p, hnow, hc, hp, hp', hw, htm, (hi.tim _ htm).2.2.2, hle, hdr⟩
+  cases hcl : o.clock with
+  | none =>
+    have := step_drops (T := T) (s := s) hcl
     rw [h] at this
     exact absurd this hd
+  | some n =>
+    cases o <;> simp [Op.clock] at hcl
+    case tick =>
+      subst hcl
+      obtain ⟨c, p, hnow, hc, hp, hp', hw, htm, hlt, hle, hdr⟩ := key 1 (by rw [← tick_eq_stall]; exact h)
+      exact ⟨1, c, p, rfl, hnow, hc, hp, hp', hw, htm, hlt, hle, fun _ => by omega, hdr⟩
+    case stall m =>
+      subst hcl
+      obtain ⟨c, p, hnow, hc, hp, hp', hw, htm, hlt, hle, hdr⟩ := key m h
+      exact ⟨m, c, p, rfl, hnow, hc, hp, hp', hw, htm, hlt, hle, (fun ho => Op.noConfusion ho), hdr⟩
 
 /-- `monitor_pings_are_written`: the peer can only answer the Pings it receives, so "responsive"
     must not be made vacuous by the Leader swallowing its own Pings.  Whatever the environment
     does — including the transport pausing the Outbound (`Op.pause`, send buffer full) at any
     instant — every Ping registered while a connection `c` is in use is handed to
-    `c.send_record` at that instant (`wire = some c`); and only a timer expiry generates one.
+    `c.send_record` at that instant (`wire = some c`); and only a timer expiry (a clock step) generates one.
     (The one Ping that is *not* written is the one `connector_connection_made` generates before
     the connection is in use, see `monitoring_restarts`.) -/
 theorem monitor_pings_are_written {T : Nat} (hT : 1 ≤ T) {s s' : St} {o : Op} {c : Nat}
     (hr : Reach (Cfg.real T) s) (hc : s.conn = some c) (h : step (Cfg.real T) s o = (s', none)) :
-    ∀ p ∈ s'.pings, p ∈ s.pings ∨ (p.wire = some c ∧ p.sent = s'.now ∧ o = .tick) :=
+    ∀ p ∈ s'.pings, p ∈ s.pings ∨ (p.wire = some c ∧ p.sent = s'.now ∧ o.clock ≠ none) :=
   step_pings (reach_inv hT hr) hc h
 
-/-- `responsive_never_dropped`: along any trace from a reachable state, if at every timer expiry
-    every Ping that reached the connection in use has been answered within one interval
-    (`Responsive`), `signal_reconnect` never fires: no `disconnect()` is added. -/
+/-- `responsive_never_dropped`: along any trace from a reachable state — exact ticks *and* reactor
+    stalls of any length (`Op.stall n`: the clock jumps, the expiry is handled late, at
+    `deadline + d`, and the Ping goes out then) — if at every expiry that is handled every Ping
+    that reached the connection in use has been answered within one interval *of the time it was
+    actually sent* (`Responsive`), `signal_reconnect` never fires: no `disconnect()` is added.
+    It holds for all stall sequences because the next deadline is `T` after the Ping really
+    went out (`now + interval` at the late instant), never `T` after the missed deadline. -/
 theorem responsive_never_dropped {T : Nat} (hT : 1 ≤ T) (ops : List Op) :
     ∀ {s s' : St}, Reach (Cfg.real T) s → run (Cfg.real T) s ops = (s', none) →
       Responsive (Cfg.real T) s ops = true → s'.drops = s.drops := by
@@ -69,23 +92,16 @@ theorem responsive_never_dropped {T : Nat} (hT : 1 ≤ T) (ops : List Op) :
       | some e => simp [hs] at h
       | none =>
         simp only [hs, andThen_ok] at h
-        simp only [Responsive, hs, Bool.and_eq_true, Bool.or_eq_true] at hresp
+        simp only [Responsive, hs, Bool.and_eq_true] at hresp
         have h1 : s1.drops = s.drops := by
           apply Classical.byContradiction
           intro hne
-          obtain ⟨ho, c, p, hc, hp, _, hw, hsent, htm, _⟩ := drop_only_if_unanswered hT hr hs hne
-          subst ho
+          obtain ⟨n, c, p, hcl, hnow, hc, hp, _, hw, htm, _, hle, _, _⟩ := drop_only_if_unanswered hT hr hs hne
           have hk := hresp.1
-          simp [respOK, htm] at hk
-          have := hk p hp
-          have hn : s1.now = s.now + 1 := by
-            simp only [step, tick, htm] at hs
-            simp [timerExpired] at hs
-            have := ttInput_now (Cfg.real T) .interval_elapsed
-              { s with now := s.now + 1, timer := none }
-            rw [hs] at this
-            simpa using this
-          rcases this with h' | h'
+          simp only [hcl] at hk
+          have hdue : p.sent + T ≤ s.now + n := by omega
+          simp [respOK, htm, hdue] at hk
+          rcases hk p hp with h' | h'
           · simp [hw, hc] at h'
           · have := of_decide_eq_true h'; omega
         rw [ih (Reach.step hr hs) h hresp.2, h1]
@@ -244,6 +260,21 @@ example : (run (Cfg.real 2) init (connectedLeader ++ [.tick, .pause, .tick, .tic
       .pong 2, .tick, .tick])).1.wireLog = [(0, 1, 2), (0, 2, 4), (0, 3, 6)] ∧
     (run (Cfg.real 2) init (connectedLeader ++ [.tick, .pause, .tick, .tick, .pong 1, .tick, .tick, .resume,
       .pong 2, .tick, .tick])).1.drops = [] := by decide
+
+/-- late timers (T = 4): the expiry due at t = 4 is handled at t = 6 (stall), the next one (due 10)
+    at t = 14, the third (due 18) at t = 19; each Ping is answered 3 resp. 1 ticks after it really
+    went out: `Responsive`, never dropped.  Whereas a stall that swallows the whole answer window
+    (Ping out at 6, timer 10 handled at 10 with nothing read in between) is not responsive and drops. -/
+example : (run (Cfg.real 4) init (connectedLeader ++ [.stall 6, .tick, .tick, .tick, .pong 1, .stall 5, .tick, .pong 2,
+      .stall 4])).2 = none ∧
+    Responsive (Cfg.real 4) init (connectedLeader ++ [.stall 6, .tick, .tick, .tick, .pong 1, .stall 5, .tick, .pong 2,
+      .stall 4]) = true ∧
+    (run (Cfg.real 4) init (connectedLeader ++ [.stall 6, .tick, .tick, .tick, .pong 1, .stall 5, .tick, .pong 2,
+      .stall 4])).1.wireLog = [(0, 1, 6), (0, 2, 14), (0, 3, 19)] ∧
+    (run (Cfg.real 4) init (connectedLeader ++ [.stall 6, .tick, .tick, .tick, .pong 1, .stall 5, .tick, .pong 2,
+      .stall 4])).1.drops = [] ∧
+    Responsive (Cfg.real 4) init (connectedLeader ++ [.stall 6, .stall 4]) = false ∧
+    (run (Cfg.real 4) init (connectedLeader ++ [.stall 6, .stall 4])).1.drops = [(0, 10)] := by decide
 
 /-- `Responsive` is a real restriction: the silent run violates it and is dropped at `2·T` -/
 example : Responsive (Cfg.real 2) init silentTrace = false ∧
